@@ -38,3 +38,43 @@ package aspect_elimination
 //@ func (*AspectEliminationBiasListener).RankCriteriaAscending
 //@   property C15 C07
 //@   refines model.BiasListener.RankCriteriaAscending with validParams=aeValid, coversId=aeCovers, imp=aeImportance
+
+// ---- the heuristic's building blocks (C12)
+
+// the threshold of a criterion (Go's zero for a criterion the level does not name)
+//@ spec thresholdOf(t model.Weights, id string) real = id in t ? t[id] : 0.0
+
+//@ func isBellowThreshold
+//@   property C12
+//@   panics_iff [missing] !(criterion.Id in a.Criteria)
+//@   ensures [below] result <==> model.signed(*a, *criterion) < thresholdOf(*thresholds, criterion.Id) * model.mult(*criterion)
+
+//@ func makeWeightPair
+//@   property C12
+//@   ensures [single_threshold] fresh(result) && criterion.Id in result && result[criterion.Id] == thresholdOf(*weights, criterion.Id) && forall q string :: q in result ==> q == criterion.Id
+
+//@ pred eliminatedAt(r model.AlternativeResult, alt model.AlternativeWithCriteria, level int, thresholds model.Weights) =
+//@      r.Alternative == alt && typeis(r.Evaluation, AspectEliminationEvaluation)
+//@   && r.Evaluation.(AspectEliminationEvaluation).ThresholdsIndex == level && r.Evaluation.(AspectEliminationEvaluation).NotSatisfiedThreshold == thresholds
+
+//@ func updateResult
+//@   property C12
+//@   requires 0 <= resultInsertIndex && resultInsertIndex < len(result) && resultInsertIndex < len(resultIds) && arr(result) != 0
+//@   assigns result, resultIds
+//@   ensures [slot_written] eliminatedAt(result[resultInsertIndex], alternative, alternativeValue, *thresholds) && resultIds[resultInsertIndex] == alternative.Id
+//@   ensures [next_slot_is_above] result0 == resultInsertIndex - 1
+//@   ensures [others_unchanged] (forall k int :: 0 <= k && k < len(result) && k != resultInsertIndex ==> result[k] == old(result[k]))
+//@             && (forall k int :: 0 <= k && k < len(resultIds) && k != resultInsertIndex ==> resultIds[k] == old(resultIds[k]))
+
+//@ func fillRemainingAlternatives
+//@   property C12 C01
+//@   requires len(leftToChoice) <= len(result) && len(leftToChoice) <= len(resultIds) 
+//@   assigns result, resultIds
+//@   ensures [survivors_on_top] forall k int :: 0 <= k && k < len(leftToChoice) ==> result[k].Alternative == leftToChoice[k] && resultIds[k] == leftToChoice[k].Id
+//@             && typeis(result[k].Evaluation, AspectEliminationEvaluation) && result[k].Evaluation.(AspectEliminationEvaluation).ThresholdsIndex == thresholdIndex + 1
+//@   ensures [eliminated_untouched] (forall k int :: len(leftToChoice) <= k && k < len(result) ==> result[k] == old(result[k]))
+//@             && (forall k int :: len(leftToChoice) <= k && k < len(resultIds) ==> resultIds[k] == old(resultIds[k]))
+//@   loop 1 invariant [filled] forall k int :: 0 <= k && k < iter ==> result[k].Alternative == leftToChoice[k] && resultIds[k] == leftToChoice[k].Id
+//@             && typeis(result[k].Evaluation, AspectEliminationEvaluation) && result[k].Evaluation.(AspectEliminationEvaluation).ThresholdsIndex == thresholdIndex + 1
+//@   loop 1 invariant [rest] (forall k int :: iter <= k && k < len(result) ==> result[k] == old(result[k])) && (forall k int :: iter <= k && k < len(resultIds) ==> resultIds[k] == old(resultIds[k]))
+//@   loop 1 invariant [input] unchanged(leftToChoice)
